@@ -301,7 +301,7 @@ Definition reach_map_fwd_ref (d : data) (s : scenario) (p : params) (acc : list 
 
 (* reverse: lat n = latest time the traveller may be ready (standing) at n and still arrive by A;
    brd n = latest (boarding departure - minimum waiting) over vehicles boardable at n *)
-Definition NEG : Z := -1.
+Definition NEG : Z := - MAX_INT.   (* "no label": below every clock value, including negative ready times next to 0:00 *)
 
 Definition relax_trip_rev (d : data) (p : params) (cs : list conn) (st : (nat -> Z) * (nat -> Z)) : (nat -> Z) * (nat -> Z) :=
   let '(lat, brd, _) :=
@@ -364,3 +364,106 @@ Definition service_to_destination_b (d : data) (s : scenario) (p : params) (egr 
     | Some r => (c_arr c <=? q_time p - fp_time r) && (q_time p - c_arr c <=? q_maxtt p)
     | None => false
     end) cs) (admitted_conns d s p).
+
+(* ---------------------------------------------------------------------------------------------- *)
+(* shapes and transformations used by the property statements                                       *)
+
+Definition is_walk (j : jstep) : bool := negb (is_some (js_enter j)) && negb (is_some (js_exit j)).
+
+(* a leg whose connections belong to one trip and whose boarding connection has the minimum waiting
+   value the data gives for that (trip, sequence) *)
+Definition leg_in_data (d : data) (j : jstep) : bool :=
+  match js_enter j, js_exit j, js_trip j with
+  | Some en, Some ex, Some t =>
+      Nat.eqb (c_trip en) t && Nat.eqb (c_trip ex) t &&
+      match find_conn d t (c_seq en) with Some b => c_minw b =? c_minw en | None => false end
+  | _, _, _ => false
+  end.
+
+(* access walk . legs+ . egress walk *)
+Definition shape_ok (d : data) (js : list jstep) : bool :=
+  match js with
+  | a :: rest =>
+      is_walk a &&
+      match rev rest with
+      | e :: legs_rev => is_walk e && nonempty legs_rev && forallb (leg_in_data d) legs_rev
+      | [] => false
+      end
+  | [] => false
+  end.
+
+(* C11: physical removal of the trips a scenario excludes, and the all-inclusive scenario on the copy *)
+Definition delete_excluded (d : data) (s : scenario) : data :=
+  {| d_nodes := d_nodes d; d_fp := d_fp d; d_rfp := d_rfp d; d_lines := d_lines d; d_paths := d_paths d;
+     d_trips := filter (trip_enabled d s) (d_trips d); d_scenarios := d_scenarios d |}.
+Definition all_inclusive (d : data) (s : scenario) : scenario :=
+  {| s_id := s_id s; s_services := s_services s;
+     s_onlyLines := []; s_onlyModes := []; s_onlyAgencies := []; s_onlyNodes := [];
+     s_exceptLines := []; s_exceptModes := []; s_exceptAgencies := []; s_exceptNodes := [] |}.
+
+(* ---------------------------------------------------------------------------------------------- *)
+(* validity at the level of the journey deque (access walk . legs . egress walk), the form in which
+   the scans hand an itinerary to optimizeJourney and to the emission loop                          *)
+
+Definition conn_eqb_full (a b : conn) : bool :=
+  Nat.eqb (c_trip a) (c_trip b) && Nat.eqb (c_seq a) (c_seq b) && Nat.eqb (c_from a) (c_from b) &&
+  Nat.eqb (c_to a) (c_to b) && (c_dep a =? c_dep b) && (c_arr a =? c_arr b) &&
+  Bool.eqb (c_cb a) (c_cb b) && Bool.eqb (c_cu a) (c_cu b) && (c_minw a =? c_minw b).
+
+(* c is the connection the data gives for (trip c, seq c) *)
+Definition conn_in_data (d : data) (c : conn) : bool :=
+  match find_conn d (c_trip c) (c_seq c) with Some c' => conn_eqb_full c c' | None => false end.
+
+Definition jleg_ok (d : data) (s : scenario) (p : params) (j : jstep) : bool :=
+  match js_enter j, js_exit j, js_trip j with
+  | Some b, Some e, Some t =>
+      Nat.eqb (c_trip b) t && Nat.eqb (c_trip e) t && conn_in_data d b && conn_in_data d e &&
+      match find_trip d t with Some tr => trip_admitted d s p tr | None => false end &&
+      c_cb b && c_cu e && Nat.leb (c_seq b) (c_seq e)
+  | _, _, _ => false
+  end.
+
+(* ready = the time the traveller stands at the boarding stop of the first leg of `legs` *)
+Fixpoint jchain_ok (d : data) (p : params) (ready : Z) (legs : list jstep) : bool :=
+  match legs with
+  | [] => true
+  | x :: r =>
+      match js_enter x, js_exit x with
+      | Some b, Some e =>
+          (ready + minw_true p b <=? c_dep b) &&
+          match r with
+          | [] => true
+          | y :: _ =>
+              match js_enter y with
+              | Some b' =>
+                  (if Nat.eqb (c_to e) (c_from b') then js_walk x =? 0
+                   else has_row (fp_of d (c_to e)) (c_from b') (js_walk x)) &&
+                  (js_walk x <=? q_maxtr p) && jchain_ok d p (c_arr e + js_walk x) r
+              | None => false
+              end
+          end
+      | _, _ => false
+      end
+  end.
+
+Definition first_board (legs : list jstep) : option conn := match legs with x :: _ => js_enter x | [] => None end.
+Definition last_alight (legs : list jstep) : option conn := match rev legs with x :: _ => js_exit x | [] => None end.
+
+Definition journey_ok_b (d : data) (s : scenario) (p : params) (acc egr : list fprow) (bestdep : Z) (js : list jstep) : bool :=
+  match js with
+  | a :: rest =>
+      is_walk a &&
+      match rev rest with
+      | e :: legs_rev =>
+          let legs := rev legs_rev in
+          is_walk e && forallb (jleg_ok d s p) legs &&
+          match first_board legs, last_alight legs with
+          | Some b1, Some el =>
+              has_row acc (c_from b1) (js_walk a) && has_row egr (c_to el) (js_walk e) &&
+              jchain_ok d p (bestdep + js_walk a) legs
+          | _, _ => false
+          end
+      | [] => false
+      end
+  | [] => false
+  end.
